@@ -7,7 +7,8 @@ before its own analysis (`AnalysisContext::template` / `function`, once or twice
 
 Expected, for every definition: exactly one `write_reports`, and what is written is exactly what was produced for that
 definition - its lifting reports (once, however often it was referenced), the error report if lifting failed, and one
-report per pass if it succeeded; CFG generation runs once per definition."""
+report per pass if it succeeded - each report once: what a repeated lifting produces again is not displayed again;
+CFG generation runs once per definition unless a pass asks for a graph that is out of the cache."""
 import passeval
 from finfun import S, Unsupported
 from passeval import MMap, Panic, Sink
@@ -52,11 +53,22 @@ def _runner(w):
     return S("AnalysisRunner", *[vals[f_] for f_ in w.structs["AnalysisRunner"]]), asts
 
 
-def run(kind, lifting_ok, referenced):
-    """-> (writes, generated): writes = list of report lists handed to write_reports; generated = asts lifted, in order"""
+def run(kind, lifting, referenced, relift=False):
+    """lifting: 'ok' | 'fails' | 'first-fails' (only the first definition fails).  relift: the first analysis pass asks the
+    runner for the first definition (AnalysisContext::template / function) while it runs - for the definition under
+    analysis itself (whose graph is taken out of the cache then) and for every later one.
+    -> (writes, generated, asts): writes = list of report lists handed to write_reports; generated = asts lifted, in order"""
     w = _world()
     runner, asts = _runner(w)
     generated = []
+    first = NAMES[kind][0]
+
+    def lifting_ok_for(ast):
+        if lifting == "ok":
+            return True
+        if lifting == "fails":
+            return False
+        return ast is not asts[(kind, first)]
 
     def generate_cfg(args):
         ast, _curve, reports = args[0], args[1], args[2]
@@ -65,13 +77,15 @@ def run(kind, lifting_ok, referenced):
         generated.append(ast)
         reports.items.append(("K", "lifting-report-1", (ast,)))
         reports.items.append(("K", "lifting-report-2", (ast,)))
-        if lifting_ok:
+        if lifting_ok_for(ast):
             return S("Ok", ("K", "cfg", (ast,)))
         return S("Err", ("K", "error-report", (ast,)))
 
     def passes(_args):
         def mk(i):
-            def run_pass(_ctx, cfg):
+            def run_pass(ctx_, cfg):
+                if relift and i == 0:
+                    w.call_method(ctx_, kind, [first])  # e.g. a template that instantiates the first one (or itself)
                 s_ = Sink()
                 s_.items.append(("K", "pass-report-%d" % i, (cfg,)))
                 return s_
@@ -89,7 +103,6 @@ def run(kind, lifting_ok, referenced):
         return len(items)
 
     writer = ("O", "writer", (("write_message", ("PY", lambda *_a: ("T", ()))), ("write_reports", ("PY", write_reports))))
-    first = NAMES[kind][0]
     for _ in range(referenced):
         # another definition's pass asks for this one (AnalysisContext::template / function)
         w.call_method(runner, kind, [first])
@@ -97,12 +110,12 @@ def run(kind, lifting_ok, referenced):
     return writes, generated, asts
 
 
-def expected(kind, lifting_ok, asts):
+def expected(kind, lifting, asts):
     want = []
     for n in NAMES[kind]:
         ast = asts[(kind, n)]
         r = [("K", "lifting-report-1", (ast,)), ("K", "lifting-report-2", (ast,))]
-        if lifting_ok:
+        if lifting == "ok" or (lifting == "first-fails" and n != NAMES[kind][0]):
             cfg = ("K", "cfg", (ast,))
             r += [("K", "pass-report-0", (cfg,)), ("K", "pass-report-1", (cfg,))]
         else:
@@ -115,19 +128,22 @@ def _key(r):
     return repr(r)
 
 
-def rule(ctx, R):
-    """Returns True when the evaluation decided every world."""
+def rule(ctx, R, only=None):
+    """Returns True when the evaluation decided every world (of those whose name contains `only`)."""
     from astlib import find_fn, site
 
     decided = True
     for kind in ("template", "function"):
         fn = find_fn(RUN, "analyze_%ss" % kind)
         st = site(RUN, fn) if fn else None
-        for lifting_ok in (True, False):
-            for referenced in (0, 1, 2):
-                tag = "AnalysisRunner/%s/lifting-%s/referenced-%d-times-before" % (kind, "succeeds" if lifting_ok else "fails", referenced)
+        for lifting, referenced, relift in [(l_, r_, False) for l_ in ("ok", "fails") for r_ in (0, 1, 2)] + [(l_, 0, True) for l_ in ("ok", "first-fails")]:
+            if True:
+                lifting_ok = lifting == "ok"
+                if only is not None and ("lifting-" + {"ok": "succeeds", "fails": "fails", "first-fails": "of-the-first-definition-fails"}[lifting]).find(only) < 0:
+                    continue
+                tag = "AnalysisRunner/%s/lifting-%s/%s" % (kind, {"ok": "succeeds", "fails": "fails", "first-fails": "of-the-first-definition-fails"}[lifting], ("referenced-%d-times-before" % referenced) if not relift else "a-pass-asks-for-the-first-definition")
                 try:
-                    writes, generated, asts = run(kind, lifting_ok, referenced)
+                    writes, generated, asts = run(kind, lifting, referenced, relift)
                 except Unsupported as u:
                     ctx.note("the analysis runner is outside the evaluator's subset (%s, %s): shape obligations apply" % (tag, u))
                     decided = False
@@ -135,7 +151,7 @@ def rule(ctx, R):
                 except Panic as p_:
                     ctx.bad(R, tag + "/no-panic", "the runner panics: %s" % p_, st)
                     continue
-                want = expected(kind, lifting_ok, asts)
+                want = expected(kind, lifting, asts)
                 got = sorted(sorted(_key(r) for r in w_) for w_ in writes)
                 exp = sorted(sorted(_key(r) for r in w_) for w_ in want)
                 det = "one write per definition with its lifting reports once, then %s" % ("one report per pass" if lifting_ok else "the lifting error")
@@ -147,5 +163,6 @@ def rule(ctx, R):
                 per = {}
                 for a in generated:
                     per[id(a)] = per.get(id(a), 0) + 1
-                ctx.check(R, tag + "/lifted-once", all(v == 1 for v in per.values()) and len(per) == len(NAMES[kind]), "CFG generation ran %s time(s) per definition" % sorted(per.values()), st)
+                if not relift:
+                    ctx.check(R, tag + "/lifted-once", all(v == 1 for v in per.values()) and len(per) == len(NAMES[kind]), "CFG generation ran %s time(s) per definition" % sorted(per.values()), st)
     return decided
